@@ -59,7 +59,9 @@ ASSUME = ["closed forms are the ones in the kernels' docstrings, evaluated with 
           "J is passed as the optimizer passes it: shape (numel(R), P), contiguous; correctors are called with "
           "keyword arguments R=, J= (mostly under torch.no_grad as in GN/LM.step)",
           "rows whose rho'' is within round-off of a sign change are not generated (sign-changing user kernel is "
-          "sampled away from its root)",
+          "sampled away from its root); rows whose true rho'' <= 0 is smaller than 16*u*(magnitude of the terms autograd "
+          "assembles it from) may be treated as rho''>0 by Triggs and are allowed the resulting relative deviation "
+          "32*u*a2*c/rho' from FastTriggs (only Tolerant with (x-a)/b >> 1 has such rows)",
           "CPU only"]
 
 mp.mp.dps = 50
@@ -804,7 +806,7 @@ def mp_loss(specs, Rs):
 
 
 def monitor_optimizer(ck, rng, dn, optname, config, specs2, nres):
-    """config: 'single-auto' | 'list-auto' | 'list-list' | 'single-triggs' | 'list-none'."""
+    """config: 'single-auto' | 'single-triggs' | 'list-auto' | 'list-list' (a list may hold a None entry)."""
     dtype, u, tiny = DT[dn], u_of(dn), tiny_of(dn)
     P1, P2 = int(rng.integers(1, 4)), int(rng.integers(1, 3))
     P = P1 + P2
@@ -814,11 +816,13 @@ def monitor_optimizer(ck, rng, dn, optname, config, specs2, nres):
     Xs = [torch.tensor(rng.standard_normal((int(np.prod(s)), P))).to(dtype) for s in shapes]
     th1 = torch.tensor(rng.standard_normal(P1)).to(dtype)
     th2 = torch.tensor(rng.standard_normal((P2, 1))).to(dtype)
-    scale = [min(math.sqrt(sp.s0) * 2, 2.0) if sp is not None else 1.0 for sp in specs2]
+    scale = [min(math.sqrt(sp.s0) * 2, 2.0) if sp is not None else 1.0 for sp in
+             ([specs2[0]] * nres if config.startswith("single") else specs2)]
     targets = [torch.tensor(rng.standard_normal(s) * sc).to(dtype) for s, sc in zip(shapes, scale)]
     # keep |R_i|^2 inside the range the kernel is exercised on (exp-type user kernels overflow otherwise)
     th = torch.cat([th1.reshape(-1), th2.reshape(-1)])
-    for i, sp in enumerate(specs2):
+    acting = [specs2[0]] * nres if config.startswith("single") else list(specs2)   # kernel that meets residual i
+    for i, sp in enumerate(acting):
         if sp is None:
             continue
         cmax_i = float(((Xs[i] @ th).view(shapes[i]) - targets[i]).double().square().sum(-1).max())
